@@ -254,8 +254,6 @@ def replay_readinput(ctx, cands):
     from .cli import run_driver, show
     POL = ctx.enums['OnError']
     for c in cands:
-        if c.unmodelled:
-            c.status = 'inconclusive'; continue
         mv = c.model; outs = mv.get('outcomes', [])
         toks = []; n_rows_before_break = None; fail_read = None; rows = 0
         env = {}
